@@ -191,12 +191,13 @@ def arc_length_3point(p_start: NPPointType, p_btw: NPPointType, p_end: NPPointTy
     # The radius from r1 and from r3 will be identical
     radius = rad_end
 
-    # Determine the angle
-    angle = np.arccos((rad_start.dot(rad_end)) / (mag1 * mag3))
+    # Determine the angle: from start to end, turning in the direction
+    # in which the point between them is passed
+    axis = unit_vector(np.cross(vect_a, vect_b))
+    angle = np.arctan2(np.dot(np.cross(rad_start, rad_end), axis), rad_start.dot(rad_end))
 
-    # Check if the vectors define an exterior or an interior arcEdge
-    if np.dot(np.cross(rad_start, rad_btw), np.cross(rad_start, rad_end)) < 0:
-        angle = 2 * np.pi - angle
+    if angle < 0:
+        angle += 2 * np.pi
 
     return angle * norm(radius)
 
